@@ -131,6 +131,8 @@ class _W:
 
     def __enter__(self):
         if not ENV.report_writable:
+            if getattr(ENV, "report_value_error", False):
+                raise ValueError("embedded null byte")  # what open() raises for a NUL in the path: not an OSError
             raise PermissionError(self.name)
         return self
 
@@ -187,13 +189,17 @@ def run_status_inputs(dir_exists: bool, n_sarif: int, t0: int, t1: int, e0: bool
     return run_status(dir_exists, n_sarif, t0, t1, e0, e1, has_sonar, sonar_exists, has_dd, dd_exists, 0, 0, 0, 0, True, True, False, empty_name, hotspots)
 
 
-def run_status_ai_report(sonar_missing: bool, az_key: int, az_ep: int, ll_key: int, ll_ep: int, has_output: bool, report_writable: bool, dry_run: bool) -> bool:
+def run_status_ai_report(sonar_missing: bool, az_key: int, az_ep: int, ll_key: int, ll_ep: int, has_output: bool, report_writable: bool, dry_run: bool, value_error: bool = False) -> bool:
     """run(): status for every combination of AI-client environment settings, --output given / writable and
     --dry-run (plus one missing result file; each variable absent / exported-but-empty / set): 3 for an inconsistent AI configuration, 2 when the report cannot
     be written, 0 otherwise; non-zero never with a written report.
     post: _
     """
-    return run_status(True, 1, 0, 0, True, True, True, not sonar_missing, False, True, az_key, az_ep, ll_key, ll_ep, has_output, report_writable, dry_run)
+    ENV.report_value_error = True if value_error else False  # the report cannot be written: OSError or any other error
+    try:
+        return run_status(True, 1, 0, 0, True, True, True, not sonar_missing, False, True, az_key, az_ep, ll_key, ll_ep, has_output, report_writable, dry_run)
+    finally:
+        ENV.report_value_error = False
 
 
 def run_status(dir_exists: bool, n_sarif: int, t0: int, t1: int, e0: bool, e1: bool, has_sonar: bool, sonar_exists: bool,
@@ -370,7 +376,7 @@ SPEC = {
         "codemodder.cli.parse_args / ArgumentParser.error / CsvListAction / ListAction / DescribeAction",
     ],
     "bounds": {
-        "quick": "symbolic environment flags of run(), explored in two groups (input conditions: 10 flags; AI settings / report / dry-run: 8 flags): directory exists; 0-2 SARIF files x tool in {semgrep, codeql, other, semgrep preceded by a malformed run} x exists; Sonar / DefectDojo file given x exists; 4 AI-client environment variables (absent / exported but empty / set); --output given x writable; --dry-run.  CLI: a vocabulary of 17 argument vectors selected by a symbolic index",
+        "quick": "symbolic environment flags of run(), explored in two groups (input conditions: 10 flags; AI settings / report / dry-run: 8 flags): directory exists; 0-2 SARIF files x tool in {semgrep, codeql, other, semgrep preceded by a malformed run} x exists; Sonar / DefectDojo file given x exists; 4 AI-client environment variables (absent / exported but empty / set); --output given x writable / OSError / non-OSError on write; --dry-run.  CLI: a vocabulary of 17 argument vectors selected by a symbolic index",
         "thorough": "same space",
     },
     "assumptions": [
